@@ -63,6 +63,9 @@ def strategy(tier):
         "target": target_st(),
         "headers": st.lists(st.tuples(st.sampled_from(HDR_NAMES), st.sampled_from(HDR_VALS)).map(list), min_size=0, max_size=6),
         "body": st.sampled_from(["", "", "abc"]),
+        # the same request is sent 1-3 times on one connection (keep-alive workers serve them all); a body may travel chunked, with trailers
+        "times": st.sampled_from([1, 1, 2, 3]),
+        "chunked": st.sampled_from([None, None, "plain", "trailers"]),
         "prefix_sn": st.integers(0, 3),
         "script_name": st.sampled_from([None, None, None, ["env", "/a"], ["hdr", "/a"], ["env", "/docs"], ["hdr", "/%41"], ["env", "/"],
                                         ["hdr", "/caf\xe9"]]),
@@ -121,10 +124,15 @@ def run_case(case):
     lines = ["%s %s HTTP/%s" % (case["method"], target, case["version"]), "Host: example.com"]
     for k, v in hdrs:
         lines.append("%s: %s" % (k, v))
-    if body:
+    chunked = case.get("chunked") if body and case["version"] == "1.1" else None
+    if body and chunked:
+        lines.append("Transfer-Encoding: chunked")
+        hdrs.append(["Transfer-Encoding", "chunked"])
+        body = "%x\r\n%s\r\n0\r\n%s\r\n" % (len(body), body, "X-Checksum: abc123\r\nX-Seq: 1\r\n" if chunked == "trailers" else "")
+    elif body:
         lines.append("Content-Length: %d" % len(body))
         hdrs.append(["Content-Length", str(len(body))])
-    raw = ("\r\n".join(lines) + "\r\n\r\n" + body).encode("latin-1")
+    raw = ("\r\n".join(lines) + "\r\n\r\n" + body).encode("latin-1") * case.get("times", 1)
     prog = {"status": "200 OK", "headers": [], "mode": "list", "chunks": ["ok"], "read_input": "none"}
     app = wenv.AppProgram(prog)
     cfg = wenv.make_cfg(keepalive=2, worker_connections=10, threads=2)
@@ -155,7 +163,8 @@ def run_case(case):
             vio.append(Violation("plain-accepted", "C15/plain-request-rejected", {"raw": raw[:300], "wire": sock.received()[:200]},
                                  "accepted"))
         return Outcome(vio, False, classes, sample={"target": target, "accepted": False})
-    e = app.calls[0]["environ"]
+    envs = [c["environ"] for c in app.calls]
+    e = envs[0]
     exp = {"REQUEST_METHOD": case["method"], "RAW_URI": target, "SERVER_PROTOCOL": "HTTP/" + case["version"]}
     sp = split_target(form, target)
     script_name = sn[1] if sn else ""
@@ -196,6 +205,21 @@ def run_case(case):
                              observed={"key": key, "got": got, "target": target, "script_name": sn},
                              expected={"want": want}))
 
+    for ei, e in enumerate(envs):
+        _compare(e, exp, form, sp, V, vio, ctype, clen)
+        if vio:
+            if ei:
+                vio[-1].signature += ":request-%d-on-the-connection" % (ei + 1)
+            break
+    e = envs[0]
+    classes += ["accepted", "special:%s" % special, "repeat:%s" % repeated, "script_name:%s" % (sn[0] if sn else "no"),
+                "ctl:%s" % has_ctl, "calls:%d" % len(envs), "chunked:%s" % chunked]
+    return Outcome(vio, special or repeated or len(envs) > 1, classes,
+                   sample={"target": target, "form": form, "headers": hdrs[:4], "script_name": sn,
+                           "PATH_INFO": e.get("PATH_INFO"), "QUERY_STRING": e.get("QUERY_STRING")})
+
+
+def _compare(e, exp, form, sp, V, vio, ctype, clen):
     for key, want in exp.items():
         got = e.get(key)
         if key == "PATH_INFO" and form == "absolute" and sp and sp[0] == "" and got in ("", "/"):
@@ -219,8 +243,3 @@ def run_case(case):
                 V("CONTENT_LENGTH", e.get("CONTENT_LENGTH"), clen)
         elif "CONTENT_LENGTH" in e:
             V("CONTENT_LENGTH", e.get("CONTENT_LENGTH"), None)
-    classes += ["accepted", "special:%s" % special, "repeat:%s" % repeated, "script_name:%s" % (sn[0] if sn else "no"),
-                "ctl:%s" % has_ctl]
-    return Outcome(vio, special or repeated, classes,
-                   sample={"target": target, "form": form, "headers": hdrs[:4], "script_name": sn,
-                           "PATH_INFO": e.get("PATH_INFO"), "QUERY_STRING": e.get("QUERY_STRING")})
